@@ -21,6 +21,12 @@ def listSum : List Rat → Rat
 def isClose (a b : Rat) : Bool :=
   decide ((if a - b < 0 then b - a else a - b) ≤ 1 / 100000000 + (1 / 100000) * (if b < 0 then -b else b))
 
+/-- explicit sequences: `residual = H - sum(v)`; the last slice absorbs it when that keeps it positive -/
+def absorbResidual (v : List Rat) (H : Rat) : List Rat :=
+  match v.getLast? with
+  | none => v
+  | some l => if H - listSum v ≠ 0 ∧ l + (H - listSum v) > 0 then v.dropLast ++ [l + (H - listSum v)] else v
+
 /-- `_validate_slice_thickness(slice_thickness, thickness=H)`: a positive number → `n = ⌈H/d⌉` slices of `H/n`;
 a sequence → itself; the sum must be close to `H`. -/
 def validateThickness (st : Rat ⊕ List Rat) (H : Rat) : Except String (List Rat) :=
@@ -33,7 +39,11 @@ def validateThickness (st : Rat ⊕ List Rat) (H : Rat) : Except String (List Ra
     | .inr l => .ok l
   match v with
   | .error e => .error e
-  | .ok v => if isClose (listSum v) H then .ok v else .error "runtime_error"
+  | .ok v =>
+    if !(isClose (listSum v) H) then .error "runtime_error"
+    else match st with
+      | .inl _ => .ok v
+      | .inr _ => .ok (absorbResidual v H)
 
 /-- `slice_limits`: entrance and exit depth of every slice -/
 def sliceLimits (ts : List Rat) : List (Rat × Rat) :=
@@ -75,18 +85,18 @@ def sliceIndex (ts : List Rat) (zs : List Rat) : Except String (List (List Nat))
     .ok ((List.range ts.length).map fun l => (List.range zs.length).filter fun i => digitizeDec (binEdges ts) (zs.getD i 0) == l)
   else .error "value_error"
 
-/-- `bin_edges[-1] = max(bin_edges[-1], cell_z)`: the last edge is the cell top.  On the thickness list this is the same as
-stretching the last slice up to the top when the thicknesses sum short of the cell height `H`. -/
-def stretchLast (H : Rat) : List Rat → List Rat
-  | [] => []
-  | [t] => [t + (if H - t > 0 then H - t else 0)]
-  | t :: t' :: rest => t :: stretchLast (H - t) (t' :: rest)
+/-- `bin_edges[-1] = np.inf`: nothing lies above the last slice, so the last edge never counts -/
+def binEdgesTop (ts : List Rat) : List Rat := (binEdges ts).dropLast
 
-/-- slice label as the code computes it for a cell of height `H` -/
-def labelTop (ts : List Rat) (H z : Rat) : Nat := label (stretchLast H ts) z
+/-- slice label as the code computes it: number of (nudged) interior edges `≤ z` -/
+def labelTop (ts : List Rat) (z : Rat) : Nat := digitize (binEdgesTop ts) z
 
-/-- `SliceIndexedAtoms._slice_index` for a cell of height `H` -/
-def sliceIndexTop (ts : List Rat) (H : Rat) (zs : List Rat) : Except String (List (List Nat)) := sliceIndex (stretchLast H ts) zs
+/-- `SliceIndexedAtoms._slice_index`: for every slice the (sorted) indices of its atoms.  With the last edge at +∞ numpy accepts
+the edges iff the interior ones are non-decreasing (a decreasing sequence can no longer be monotonic). -/
+def sliceIndexTop (ts : List Rat) (zs : List Rat) : Except String (List (List Nat)) :=
+  if nondecreasing (binEdgesTop ts) then
+    .ok ((List.range ts.length).map fun l => (List.range zs.length).filter fun i => labelTop ts (zs.getD i 0) == l)
+  else .error "value_error"
 
 /-- `SlicedAtoms.get_atoms_in_slices(i)` (finite projection): atoms with `a_i - pad ≤ z < b_i + pad` -/
 def slicedMembers (ts : List Rat) (pad : Rat) (zs : List Rat) (i : Nat) : Except String (List Nat) :=
